@@ -223,7 +223,8 @@ func (s *memoryStore) RemoveNode(nodeID store.NodeID) error {
 // empty list, if none are available.
 func (s *memoryStore) ActiveHosts(kind string, limit int) ([]store.Node, error) {
 	seenSince := time.Now().Add(-store.ExpireInterval)
-	r := make([]store.Node, 0, limit)
+	// The limit comes from the request, so it is not used as a capacity hint.
+	r := []store.Node{}
 
 	s.mu.Lock()
 	defer s.mu.Unlock()
